@@ -79,6 +79,42 @@ fn undefined() -> Box<dyn error::Error> {
     "The operation is not defined for these operands".into()
 }
 
+/// Principal branch of the Lambert W function: Halley's method from an asymptotic
+/// starting point, iterated to convergence (at most 50 steps).
+fn lambert_w0(x: f64) -> f64 {
+    if x.is_nan() || x == f64::INFINITY || x == 0.0 {
+        return x;
+    }
+    let mut w = if x < -0.25 {
+        // series around the branch point -1/e
+        let p = (2.0 * (std::f64::consts::E * x + 1.0)).max(0.0).sqrt();
+        -1.0 + p - p * p / 3.0 + 11.0 / 72.0 * p * p * p
+    } else if x < 3.0 {
+        let l = (1.0 + x).ln();
+        l * (1.0 - (1.0 + l).ln() / (2.0 + l))
+    } else {
+        let l1 = x.ln();
+        let l2 = l1.ln();
+        l1 - l2 + l2 / l1
+    };
+    for _ in 0..50 {
+        #[cfg(feature = "verif_hooks")]
+        crate::verif_hooks::tick(3);
+        let exp_w = w.exp();
+        let f = w * exp_w - x;
+        let denominator = exp_w * (w + 1.0) - (w + 2.0) * f / (2.0 * w + 2.0);
+        if f == 0.0 || denominator == 0.0 || !denominator.is_finite() {
+            break;
+        }
+        let step = f / denominator;
+        w -= step;
+        if step.abs() <= 1e-16 * w.abs() {
+            break;
+        }
+    }
+    w
+}
+
 pub fn eval(expr: Node) -> Result<Decimal, Box<dyn error::Error>> {
     #[cfg(feature = "verif_hooks")]
     crate::verif_hooks::tick(2);
@@ -152,19 +188,27 @@ pub fn eval(expr: Node) -> Result<Decimal, Box<dyn error::Error>> {
             if sub_expr < -Decimal::new(-1, 0).exp() {
                 return Err("The Lambert W function is not defined for {}.".into());
             }
-            let iterations = (Decimal::new(4, 0))
-                .max((sub_expr.log10() / Decimal::new(3, 0)).ceil())
-                .to_i32()
-                .unwrap_or(4);
-            let mut w = Decimal::ZERO;
-            for _ in 0..iterations {
+            // start from the double-precision value, then refine with Halley steps in Decimal
+            let start = lambert_w0(sub_expr.to_f64().ok_or_else(out_of_range)?);
+            let mut w = Decimal::from_f64(start).ok_or_else(out_of_range)?;
+            let one = Decimal::new(1, 0);
+            let two = Decimal::new(2, 0);
+            for _ in 0..3 {
                 #[cfg(feature = "verif_hooks")]
                 crate::verif_hooks::tick(3);
-                let exp_w = w.exp();
-                w -= (w * exp_w - sub_expr)
-                    / (exp_w * (w + Decimal::new(1, 0))
-                        - (w + Decimal::new(2, 0)) * (w * exp_w - sub_expr)
-                            / (Decimal::new(2, 0) * w + Decimal::new(2, 0)));
+                let refined = (|| -> Option<Decimal> {
+                    let exp_w = w.checked_exp()?;
+                    let f = w.checked_mul(exp_w)?.checked_sub(sub_expr)?;
+                    let correction = (w + two)
+                        .checked_mul(f)?
+                        .checked_div(two.checked_mul(w)?.checked_add(two)?)?;
+                    let denominator = exp_w.checked_mul(w + one)?.checked_sub(correction)?;
+                    w.checked_sub(f.checked_div(denominator)?)
+                })();
+                match refined {
+                    Some(next) => w = next,
+                    None => break,
+                }
             }
             Ok(w)
         }
@@ -176,7 +220,16 @@ pub fn eval(expr: Node) -> Result<Decimal, Box<dyn error::Error>> {
                 #[cfg(feature = "verif_hooks")]
                 crate::verif_hooks::tick(3);
                 x += Decimal::new(1, 0);
-                n = (n.log10() / b.log10()).floor();
+                let next = n
+                    .checked_log10()
+                    .ok_or_else(undefined)?
+                    .checked_div(b.checked_log10().ok_or_else(undefined)?)
+                    .ok_or_else(undefined)?
+                    .floor();
+                if next >= n {
+                    return Err("The iterated logarithm does not converge for this base".into());
+                }
+                n = next;
             }
             Ok(x)
         }
